@@ -109,7 +109,7 @@ func acceptanceTest(t *testing.T, id string, ver int, check func(strCase) string
 		}
 	}
 	// ---- rapid -----------------------------------------------------------------------------------
-	c.rapidStage("rapid", pick(180000, 4000000), func(rt *rapid.T) {
+	c.rapidStage("rapid", pick(1000000, 4000000), func(rt *rapid.T) {
 		cs, cl := drawStringCase(rt, ver, int(pick(256, 2048)))
 		acc := refAccept(cs)
 		nt := (!acc && nearValid(cl)) || (acc && string(cs.Input) != canonOf(ver, string(cs.Input), spec.Level(cs.Level)))
